@@ -193,6 +193,13 @@ Qed.
 Lemma find_ext' {A} (p q : A -> bool) l : (forall x, p x = q x) -> find p l = find q l.
 Proof. intros H. induction l as [|x r IH]; simpl; [reflexivity|]. rewrite H, IH. reflexivity. Qed.
 
+Lemma strs_eq_eq a b : strs_eq a b = true -> a = b.
+Proof.
+  revert b. induction a as [|x r IH]; intros [|y s]; simpl; intros H; try discriminate; [reflexivity|].
+  apply andb_true_iff in H as [H1 H2]. apply String.eqb_eq in H1. subst. f_equal. apply IH, H2.
+Qed.
+
+
 Scheme value_mind := Induction for value Sort Prop
   with vfields_mind := Induction for vfields Sort Prop.
 Combined Scheme value_vfields_mutind from value_mind, vfields_mind.
@@ -209,7 +216,7 @@ Section Main.
   Variable pk : pick.
   Variable drule : droprule.
   Variable dis_absent : bool.
-  Variable child_drop : bool.
+  Variable child_drop : option bool.
   Variable h : hier.
   Variable modname : string.
   Variable enum : string -> list string.
@@ -217,6 +224,7 @@ Section Main.
   Hypothesis Hskey : skey = KAllCount.
   Hypothesis Hcset : cset = FAll.
   Hypothesis Hrset : rset = ReqAll.
+  Hypothesis Hcd : child_drop = Some false.       (* the chosen subclass is entered with drop_extra_fields=False *)
   Hypothesis Hcmp : cmp = CGe.
   Hypothesis Hpk : pk = PickFirst.
   Hypothesis Hwf : wf_hier TYPE_KEY h = true.
@@ -233,8 +241,7 @@ Section Main.
   Notation cands := (candidates h enum).
 
   (* the effective drop_extra_fields of a call on class n *)
-  Definition model_drop (n : string) (dropo : option bool) : bool :=
-    match dropo with Some b => b | None => drop_default drule (dis_of dis_absent h n) end.
+  Notation model_drop := (resolve_drop drule dis_absent h).
 
   (* ---------- what well-formedness gives ---------- *)
   Lemma wf_names : NoDup (map c_name h).
@@ -460,10 +467,10 @@ Section Main.
     ( ((extras_of c keys = [] \/ model_drop (c_name c) dropo = true) /\ construct c present = Ok v)
       \/ (extras_of c keys <> [] /\ model_drop (c_name c) dropo = false /\ exists child present2,
             chs (c_name c) (req_names rset c (extras_of c keys) present) = Some child /\
-            collect (c_fields child) (dec (ftype_of child) child_drop) = Ok present2 /\
+            collect (c_fields child) (dec (ftype_of child) (model_drop (c_name child) child_drop)) = Ok present2 /\
             construct child present2 = Ok v) ).
   Proof.
-    unfold build. fold (model_drop (c_name c) dropo).
+    unfold build.
     destruct (collect (c_fields c) (dec (ftype_of c) (model_drop (c_name c) dropo))) as [present|] eqn:Ec; [|discriminate].
     intros H. exists present. split; [reflexivity|].
     destruct (extras_of c keys) as [|e es] eqn:Ee.
@@ -472,7 +479,7 @@ Section Main.
       + left. split; [right; reflexivity|exact H].
       + right. split; [discriminate|]. split; [reflexivity|].
         destruct (chs (c_name c) (req_names rset c (e :: es) present)) as [child|] eqn:Ech; [|discriminate].
-        destruct (collect (c_fields child) (dec (ftype_of child) child_drop)) as [p2|] eqn:Ec2; [|discriminate].
+        destruct (collect (c_fields child) (dec (ftype_of child) (model_drop (c_name child) child_drop))) as [p2|] eqn:Ec2; [|discriminate].
         destruct (extras_of child keys); [|discriminate].
         exists child, p2. auto.
   Qed.
@@ -481,11 +488,11 @@ Section Main.
     collect (c_fields c) (dec (ftype_of c) (model_drop (c_name c) dropo)) = Ok present ->
     extras_of c keys <> [] -> model_drop (c_name c) dropo = false ->
     chs (c_name c) (req_names rset c (extras_of c keys) present) = Some child ->
-    collect (c_fields child) (dec (ftype_of child) child_drop) = Ok p2 ->
+    collect (c_fields child) (dec (ftype_of child) (model_drop (c_name child) child_drop)) = Ok p2 ->
     extras_of child keys = [] ->
     bld dec keys c dropo = construct child p2.
   Proof.
-    intros Hc He Hd Hch Hc2 He2. unfold build. fold (model_drop (c_name c) dropo). rewrite Hc, Hd.
+    intros Hc He Hd Hch Hc2 He2. unfold build. rewrite Hc, Hd.
     destruct (extras_of c keys) as [|e es]; [congruence|]. rewrite Hch, Hc2, He2. reflexivity.
   Qed.
 
@@ -494,7 +501,7 @@ Section Main.
     (extras_of c keys = [] \/ model_drop (c_name c) dropo = true) ->
     bld dec keys c dropo = construct c present.
   Proof.
-    intros Hc H. unfold build. fold (model_drop (c_name c) dropo). rewrite Hc.
+    intros Hc H. unfold build. rewrite Hc.
     destruct (extras_of c keys) as [|e es]; [reflexivity|]. destruct H as [H|H]; [discriminate|]. rewrite H. reflexivity.
   Qed.
 
@@ -596,7 +603,7 @@ Section Main.
       apply (assoc_map_names (fun n => getd n fs)). apply in_map, Hf.
   Qed.
 
-  Lemma entry_of_instance c save drop fs f : In c h -> In f (c_fields c) -> vf_keys fs = field_names c ->
+  Lemma entry_of_instance c save drop fs f : In c h -> In f (c_fields c) -> In (f_name f) (vf_keys fs) ->
     (forall v, vf_get (f_name f) fs = Some v -> decode_one (f_ty f) drop (tser save v) = Ok v) ->
     forall pre, (pre = SNil \/ exists q, pre = SCons TYPE_KEY q SNil) ->
     assoc (f_name f) (dkvs (ftype_of c) drop
@@ -607,7 +614,7 @@ Section Main.
     assert (Hne : String.eqb (f_name f) TYPE_KEY = false).
     { apply String.eqb_neq. intros E. apply (wf_no_type_key c Hin). rewrite <- E. apply in_map, Hf. }
     assert (Hget : exists v, vf_get (f_name f) fs = Some v).
-    { apply vf_get_in. rewrite Hk. apply in_map, Hf. }
+    { apply vf_get_in. exact Hk. }
     destruct Hget as [v Hv].
     rewrite assoc_decode, Hne, (ftype_of_field c f (wf_fields_nodup c Hin) Hf).
     assert (Hs : sf_get (f_name f) (match pre with SCons k q _ => SCons k q (fldser save fs) | _ => fldser save fs end)
@@ -650,13 +657,24 @@ Section Main.
     unfold field_names. rewrite !map_length. exact Hl.
   Qed.
 
+  Lemma fields_sub_ty A c f : fields_sub A c = true -> In f (c_fields A) -> ftype_of c (f_name f) = Some (f_ty f).
+  Proof.
+    unfold fields_sub. rewrite forallb_forall. intros H Hin. specialize (H f Hin).
+    destruct (ftype_of c (f_name f)) as [t|]; [|discriminate].
+    destruct t, (f_ty f); try discriminate; try reflexivity; apply String.eqb_eq in H; subst; reflexivity.
+  Qed.
+
   (* ---------- C14_identified ---------- *)
-  Theorem identified_thm base dropo d fs :
-    In d h -> identified h base d = true -> flat_class d = true -> flat_fields fs = true ->
-    vf_keys fs = field_names d -> model_drop base dropo = false ->
+  (* the core: an instance of an identified class, each of whose field values decodes back (without dropping) from
+     its own serialized form, loads through the base as itself *)
+  Lemma identified_core base dropo d fs :
+    In d h -> identified h base d = true -> vf_keys fs = field_names d ->
+    (forall f, In f (c_fields d) -> forall v, vf_get (f_name f) fs = Some v ->
+               decode_one (f_ty f) false (tser false v) = Ok v) ->
+    model_drop base dropo = false ->
     fser base dropo (tser false (VObj (c_name d) fs)) = Ok (VObj (c_name d) fs).
   Proof.
-    intros Hd Hid Hfc Hff Hk Hdrop.
+    intros Hd Hid Hk Hent Hdrop.
     pose proof (wf_no_type_key d Hd) as Hnt.
     rewrite tser_obj.
     assert (Hkeys : sf_keys (fldser false fs) = field_names d) by (rewrite sf_keys_fldser; exact Hk).
@@ -665,29 +683,33 @@ Section Main.
     unfold identified in Hid. apply andb_true_iff in Hid as [Hcone Hall].
     rewrite forallb_forall in Hall.
     assert (Hself : extras_of d (field_names d) = []) by (apply extras_nil_iff, has_all_self).
-    assert (Hfull : forall drop, exists present,
-               collect (c_fields d) (dkvs (ftype_of d) drop (fldser false fs)) = Ok present
+    assert (Hfull : exists present,
+               collect (c_fields d) (dkvs (ftype_of d) false (fldser false fs)) = Ok present
                /\ construct d present = Ok (VObj (c_name d) fs)).
-    { intros drop. apply collect_construct_full; [exact Hd|exact Hk|]. intros f Hf.
-      apply (flat_entry d d); auto. - eapply flat_class_ty; eauto. - apply in_map, Hf. }
+    { apply collect_construct_full; [exact Hd|exact Hk|]. intros f Hf.
+      apply (entry_of_instance d false false fs f Hd Hf) with (pre := SNil).
+      - rewrite Hk. apply in_map, Hf.
+      - apply Hent, Hf.
+      - left. reflexivity. }
     unfold in_cone in Hcone. apply orb_true_iff in Hcone as [Heq|Hanc].
     - (* loaded through its own class *)
       apply String.eqb_eq in Heq. subst base. rewrite (find_class_unique h d wf_names Hd).
-      destruct (Hfull (model_drop (c_name d) dropo)) as [present [Hc Hcon]].
-      rewrite (build_self _ _ _ _ _ Hc (or_introl Hself)). exact Hcon.
+      destruct Hfull as [present [Hc Hcon]].
+      rewrite (build_self _ _ _ _ present); [exact Hcon|rewrite Hdrop; exact Hc|left; exact Hself].
     - apply str_in_In in Hanc.
       destruct (wf_ancestor d base Hd Hanc) as [B [EB Hsub]]. rewrite EB.
       pose proof (find_class_some _ _ _ EB) as [HB HBn].
       assert (Hne : c_name B <> c_name d).
       { rewrite HBn. intros E. apply (wf_acyclic d Hd). rewrite E in Hanc. exact Hanc. }
-      (* the base's own fields decode *)
+      rewrite <- HBn in Hdrop.
+      (* the base's own fields decode: they are d's fields, with d's types *)
       assert (HcB : exists present, collect (c_fields B)
                  (dkvs (ftype_of B) (model_drop (c_name B) dropo) (fldser false fs)) = Ok present).
-      { eexists. apply (collect_map (fun f => getd (f_name f) fs)). intros f Hf.
-        apply (flat_entry B d); auto.
-        - destruct (fields_sub_spec B d f Hsub Hf) as [t [Ht' Hiff]].
-          apply ftype_of_some in Ht' as [g [Hg [_ Hgt]]]. apply Hiff. rewrite <- Hgt. eapply flat_class_ty; eauto.
-        - eapply fields_sub_names; eauto. apply in_map, Hf. }
+      { eexists. apply (collect_map (fun f => getd (f_name f) fs)). intros f Hf. rewrite Hdrop.
+        pose proof (fields_sub_ty B d f Hsub Hf) as Hty. apply ftype_of_some in Hty as [g [Hg [Hgn Hgt]]].
+        assert (Hin : In (f_name f) (vf_keys fs)) by (rewrite Hk, <- Hgn; apply in_map, Hg).
+        apply (entry_of_instance B false false fs f HB Hf Hin) with (pre := SNil); [|left; reflexivity].
+        intros v Hv. rewrite <- Hgt. apply (Hent g Hg). rewrite Hgn. exact Hv. }
       destruct HcB as [present HcB].
       (* the base lacks one of d's fields *)
       assert (HBcone : In B (cone h base)).
@@ -698,17 +720,16 @@ Section Main.
       rewrite HdB, andb_true_r in HB2.
       assert (Hex : extras_of B (field_names d) <> []).
       { intros E. apply extras_nil_iff in E. congruence. }
-      rewrite <- HBn in Hdrop.
       assert (Hreq : forall k, In k (req_names rset B (extras_of B (field_names d)) present) <-> In k (field_names d)).
       { intros k. rewrite req_names_In. pose proof (req_keys B _ _ present HB Ht HcB k) as X. rewrite Hkeys in X. exact X. }
       assert (Hddesc : In d (descendants h (c_name B))).
       { apply in_descendants. split; [exact Hd|]. rewrite HBn. exact Hanc. }
       destruct (chs (c_name B) (req_names rset B (extras_of B (field_names d)) present)) as [child|] eqn:Ech.
-      + pose proof (choose_some _ _ _ Ech) as [Hcd [Hca Hmin]].
+      + pose proof (choose_some _ _ _ Ech) as [Hcd' [Hca Hmin]].
         rewrite (has_all_ext child _ _ Hreq) in Hca.
         assert (Hle : nfields child <= nfields d).
         { apply Hmin; [exact Hddesc|]. rewrite (has_all_ext d _ _ Hreq). apply has_all_self. }
-        pose proof Hcd as Hcd'. apply in_descendants in Hcd' as [Hchild Hcanc].
+        pose proof Hcd' as Hcd''. apply in_descendants in Hcd'' as [Hchild Hcanc].
         assert (Hccone : In child (cone h base)).
         { unfold cone. apply filter_In. split; [exact Hchild|]. unfold in_cone.
           rewrite HBn in Hcanc. apply str_in_In in Hcanc. rewrite Hcanc. apply orb_true_r. }
@@ -717,14 +738,55 @@ Section Main.
           assert (child = d).
           { pose proof (find_class_unique h child wf_names Hchild) as U1.
             pose proof (find_class_unique h d wf_names Hd) as U2. rewrite E in U1. congruence. }
-          subst child. destruct (Hfull child_drop) as [p2 [Hc2 Hcon]].
-          rewrite HBn in *.
-          rewrite (build_child _ _ B dropo present d p2); try rewrite HBn; auto.
+          subst child. destruct Hfull as [p2 [Hc2 Hcon]].
+          rewrite (build_child _ _ B dropo present d p2); auto.
+          replace (model_drop (c_name d) child_drop) with false by (rewrite Hcd; reflexivity). exact Hc2.
         * exfalso. apply negb_true_iff in Hc2. unfold same_fields in Hc2.
           rewrite Hca in Hc2. simpl in Hc2.
           rewrite (nodup_same_fields child d (wf_fields_nodup d Hd) Hca Hle) in Hc2. discriminate.
       + exfalso. pose proof (choose_none _ _ Ech d Hddesc) as X.
         rewrite (has_all_ext d _ _ Hreq), has_all_self in X. discriminate.
+  Qed.
+
+  (* flat instances *)
+  Theorem identified_thm base dropo d fs :
+    In d h -> identified h base d = true -> flat_class d = true -> flat_fields fs = true ->
+    vf_keys fs = field_names d -> model_drop base dropo = false ->
+    fser base dropo (tser false (VObj (c_name d) fs)) = Ok (VObj (c_name d) fs).
+  Proof.
+    intros Hd Hid Hfc Hff Hk Hdrop. apply identified_core; auto.
+    intros f Hf v Hv. rewrite (flat_class_ty d f Hfc Hf). destruct (flat_get fs _ v Hff Hv) as [z ->]. reflexivity.
+  Qed.
+
+  (* every level reached through dataclass-typed fields: the flag travels down the recursion *)
+  Lemma hid_mutual :
+    (forall v base dropo, hid h base v = true -> model_drop base dropo = false -> fser base dropo (tser false v) = Ok v)
+    /\ (forall fs d, hid_fields h d fs = true -> forall k v, vf_get k fs = Some v ->
+          exists t, ftype_of d k = Some t /\ decode_one t false (tser false v) = Ok v).
+  Proof.
+    apply value_vfields_mutind.
+    - intros z base dropo H. discriminate.
+    - intros c fs IH base dropo Hh Hdrop. cbn [hid] in Hh.
+      destruct (find_class h c) as [d|] eqn:Ed; [|discriminate].
+      apply andb_true_iff in Hh as [Hh Hfs]. apply andb_true_iff in Hh as [Hid Hkeys]. apply strs_eq_eq in Hkeys.
+      pose proof (find_class_some _ _ _ Ed) as [Hd Hdn]. rewrite <- Hdn.
+      apply identified_core; auto.
+      intros f Hf v Hv. destruct (IH d Hfs _ _ Hv) as [t [Ht Hdec]].
+      rewrite (ftype_of_field d f (wf_fields_nodup d Hd) Hf) in Ht. injection Ht as <-. exact Hdec.
+    - intros items _ base dropo H. discriminate.
+    - intros items _ base dropo H. discriminate.
+    - intros d _ k v H. discriminate.
+    - intros k v IHv r IHr d Hh k' v' Hget.
+      cbn [hid_fields] in Hh. apply andb_true_iff in Hh as [Hhead Hrest].
+      cbn [vf_get] in Hget. destruct (String.eqb k k') eqn:E.
+      + apply String.eqb_eq in E. subst k'. injection Hget as <-.
+        destruct (ftype_of d k) as [t|] eqn:Et; [|discriminate]. exists t. split; [reflexivity|].
+        destruct t as [|b|b|b]; destruct v as [z|c fs|items|items]; try discriminate.
+        * reflexivity.
+        * cbn [decode_one]. apply IHv; [exact Hhead|reflexivity].
+        * destruct items; [reflexivity|discriminate].
+        * destruct items; [reflexivity|discriminate].
+      + eapply IHr; eauto.
   Qed.
 
   (* ---------- C14_drop on flat data: exactly the base, unknown keys dropped ---------- *)
@@ -813,12 +875,6 @@ Section Main.
     - apply String.eqb_neq. intros X. apply qual_inj in X. apply String.eqb_neq in E. contradiction.
   Qed.
 
-  Lemma strs_eq_eq a b : strs_eq a b = true -> a = b.
-  Proof.
-    revert b. induction a as [|x r IH]; intros [|y s]; simpl; intros H; try discriminate; [reflexivity|].
-    apply andb_true_iff in H as [H1 H2]. apply String.eqb_eq in H1. subst. f_equal. apply IH, H2.
-  Qed.
-
   Lemma dc_types_mutual :
     (forall v, wt h v = true -> dc_only v = true -> forall b dropo, fser b dropo (tser true v) = Ok v)
     /\ (forall fs, forall C drop, wt_fields h C fs = true -> dc_only_fields fs = true ->
@@ -843,7 +899,8 @@ Section Main.
                   (dkvs (ftype_of C) (model_drop (c_name C) dropo) (SCons TYPE_KEY (SStr (qual modname c)) (fldser true fs)))
                   HC Hkeys) as [present [Hc Hcon]].
       { intros f Hf.
-        apply (entry_of_instance C true _ fs f HC Hf Hkeys) with (pre := SCons TYPE_KEY (SStr (qual modname c)) SNil).
+        assert (Hin : In (f_name f) (vf_keys fs)) by (rewrite Hkeys; apply in_map, Hf).
+        apply (entry_of_instance C true _ fs f HC Hf Hin) with (pre := SCons TYPE_KEY (SStr (qual modname c)) SNil).
         - intros v Hv. destruct (IH C (model_drop (c_name C) dropo) Hwf' Hdc _ _ Hv) as [t [Ht Hd]].
           rewrite (ftype_of_field C f (wf_fields_nodup C HC) Hf) in Ht. injection Ht as <-. exact Hd.
         - right. eexists. reflexivity. }
@@ -878,7 +935,7 @@ Definition enum_ok (h : hier) (enum : string -> list string) : Prop :=
   forall b n, In n (enum b) <-> In n (map c_name (descendants h b)).
 
 Definition eff_drop_gen (h : hier) (base : string) (dropo : option bool) : bool :=
-  model_drop DROP_RULE_GEN DIS_ABSENT_GEN h base dropo.
+  resolve_drop DROP_RULE_GEN DIS_ABSENT_GEN h base dropo.
 
 (* bridges: what the property needs of the generated facts (each closes by computation, or the build breaks here) *)
 (* the search looks at ALL the fields that to_dict writes (init or not): count, candidate names, required names *)
@@ -891,6 +948,9 @@ Proof. reflexivity. Qed.
 Lemma bridge_superset_cmp : SUPERSET_CMP_GEN = CGe.
 Proof. reflexivity. Qed.
 Lemma bridge_pick : PICK_GEN = PickFirst.
+Proof. reflexivity. Qed.
+(* the chosen subclass is entered with drop_extra_fields=False: the flag travels down the recursion *)
+Lemma bridge_child_drop : CHILD_DROP_GEN = Some false.
 Proof. reflexivity. Qed.
 (* drop_extra_fields defaults to "not decode_into_subclasses"; an explicit value is used as given *)
 Lemma bridge_drop_rule h base :
@@ -906,7 +966,7 @@ Lemma result_admissible_gen h modname enum base dropo kvs v :
                  /\ admissible h base (sf_keys kvs) (eff_drop_gen h base dropo) R = true.
 Proof.
   intros Hwf He. unfold from_ser_gen, eff_drop_gen.
-  apply result_admissible; auto using bridge_sort_key, bridge_superset_cmp, bridge_pick, bridge_cand_fields, bridge_required.
+  apply result_admissible; auto using bridge_sort_key, bridge_superset_cmp, bridge_pick, bridge_cand_fields, bridge_required, bridge_child_drop.
 Qed.
 
 Lemma superset_gen h modname enum base dropo kvs R fs B :
@@ -938,7 +998,18 @@ Lemma identified_gen h modname enum base dropo d fs :
   from_ser_gen h modname enum base dropo (to_ser_gen modname false (VObj (c_name d) fs)) = Ok (VObj (c_name d) fs).
 Proof.
   intros Hwf He. unfold from_ser_gen, to_ser_gen, eff_drop_gen.
-  apply identified_thm; auto using bridge_sort_key, bridge_superset_cmp, bridge_pick, bridge_cand_fields, bridge_required.
+  apply identified_thm; auto using bridge_sort_key, bridge_superset_cmp, bridge_pick, bridge_cand_fields, bridge_required, bridge_child_drop.
+Qed.
+
+Lemma identified_nested_gen h modname enum base dropo v :
+  wf_hier_gen h = true -> enum_ok h enum ->
+  hid h base v = true -> eff_drop_gen h base dropo = false ->
+  from_ser_gen h modname enum base dropo (to_ser_gen modname false v) = Ok v.
+Proof.
+  intros Hwf He Hh Hd. unfold from_ser_gen, to_ser_gen.
+  exact (proj1 (hid_mutual DC_TYPE_KEY SORT_KEY_GEN SUPERSET_CMP_GEN CAND_FIELDS_GEN REQUIRED_GEN PICK_GEN DROP_RULE_GEN
+                  DIS_ABSENT_GEN CHILD_DROP_GEN h modname enum bridge_sort_key bridge_cand_fields bridge_required
+                  bridge_child_drop bridge_superset_cmp bridge_pick Hwf He) v base dropo Hh Hd).
 Qed.
 
 Lemma drop_exact_base_gen h modname enum base dropo kvs v :
@@ -1021,3 +1092,13 @@ Definition ex_g : value := VObj "G" (VCons "a" (VInt 1) (VCons "b" (VInt 2) (VCo
 Definition ex_d1 : value := VObj "D1" (VCons "a" (VInt 1) (VCons "b" (VInt 2) VNil)).
 Definition ex_o : value := VObj "O" (VCons "h" (VObj "H" (VCons "x" ex_g (VCons "xs" (VList VNil) VNil))) VNil).
 
+
+(* Derived(Base) with a dataclass-typed field opt: Opt holding an Adam(Opt); nothing sets decode_into_subclasses *)
+Definition nest_h : hier :=
+  [ mkc "Opt" [] [mkf "lr" TInt (Some (VInt 1)) true] None;
+    mkc "Adam" ["Opt"] [mkf "lr" TInt (Some (VInt 1)) true; mkf "beta" TInt (Some (VInt 9)) true] None;
+    mkc "Base" [] [mkf "a" TInt (Some (VInt 0)) true] None;
+    mkc "Derived" ["Base"] [mkf "a" TInt (Some (VInt 0)) true; mkf "opt" (TDc "Opt") None true] None ].
+Definition nest_enum (b : string) : list string := map c_name (descendants nest_h b).
+Definition nest_v : value :=
+  VObj "Derived" (VCons "a" (VInt 3) (VCons "opt" (VObj "Adam" (VCons "lr" (VInt 5) (VCons "beta" (VInt 7) VNil))) VNil)).
